@@ -27,7 +27,7 @@ import (
 var c15Columns = []struct {
 	name    string
 	off, ln int
-}{{"timestamp", 16, 12}, {"uid", 28, 6}, {"gid", 34, 6}, {"size", 48, 10}}
+}{{"timestamp", 16, 12}, {"uid", 28, 6}, {"gid", 34, 6}, {"size", 48, 10}, {"name", 0, 16}, {"mode", 40, 8}}
 
 var c15ColumnValues = []string{"-1", "-60", "-61", "-200", "9999999999", "", "12ab", "+5", "0x10", "007"}
 
@@ -42,8 +42,13 @@ func damageImage(t *rt.Tape, r *rt.Run, ms []*arMember, img []byte) ([]byte, str
 	switch kind {
 	case "column":
 		m := ms[t.Draw(len(ms), "dmg.member")]
-		c := c15Columns[t.Weighted([]int{1, 1, 1, 5}, "dmg.col")]
+		c := c15Columns[t.Weighted([]int{1, 1, 1, 5, 2, 1}, "dmg.col")]
 		v := c15ColumnValues[t.Draw(len(c15ColumnValues), "dmg.val")]
+		if c.name == "name" {
+			// name columns other ar dialects give a meaning to: BSD "#1/<n>" (the name
+			// is the first n bytes of the data), SysV "/<n>" and "//" (name table)
+			v = []string{"#1/1", "#1/20", "#1/1024", fmt.Sprintf("#1/%d", len(m.Data)), fmt.Sprintf("#1/%d", len(m.Data)+1), fmt.Sprintf("#1/%d", len(m.Data)+16), "/0", "//", "/", "#1/-4"}[t.Draw(10, "dmg.nameval")]
+		}
 		copy(out[m.HdrOff+c.off:m.HdrOff+c.off+c.ln], []byte(padTo(v, c.ln)))
 		r.Fault("stored.column-" + c.name)
 		return out, fmt.Sprintf("column %s=%q", c.name, v)
@@ -239,10 +244,15 @@ func walkBody(r *rt.Run, img []byte, disk io.ReaderAt, label string, wp *arWalk)
 			if n != e.Size {
 				r.Violate("C15/reader-size", "Next", "[%s] member %q: Size=%d but its reader spans %d bytes", label, e.Name, e.Size, n)
 			}
+			// the member's bytes lie inside the data area of ONE header of the input's
+			// header chain (a reader that understands long-name dialects may start
+			// after the name, inside that area), and that header carries the magic
 			if off < 68 || off > int64(len(img)) {
 				r.Violate("C15/header-outside-archive", "Next", "[%s] member %q: data offset %d implies a header outside the %d-byte input", label, e.Name, off, len(img))
-			} else if img[off-2] != '`' || img[off-1] != '\n' {
-				r.Violate("C15/header-magic", "Next", "[%s] member %q was returned from a header at %d whose magic bytes are %q, not \"`\\n\"", label, e.Name, off-60, string(img[off-2:off]))
+			} else if h, ok := chainOwner(img, off, n); !ok {
+				r.Violate("C15/header-magic", "Next", "[%s] member %q (data at %d, %d bytes) does not lie inside the data area of any header of the input's header chain", label, e.Name, off, n)
+			} else if img[h+58] != '`' || img[h+59] != '\n' {
+				r.Violate("C15/header-magic", "Next", "[%s] member %q was returned from a header at %d whose magic bytes are %q, not \"`\\n\"", label, e.Name, h, string(img[h+58:h+60]))
 			}
 			if e.Size <= int64(len(img))+1024 {
 				b, err := io.ReadAll(e.Data)
@@ -254,6 +264,34 @@ func walkBody(r *rt.Run, img []byte, disk io.ReaderAt, label string, wp *arWalk)
 			}
 		}
 	}
+}
+
+// chainOwner finds the header of the input's header chain whose data area
+// [h+60, h+60+size] contains the n bytes at off.
+func chainOwner(img []byte, off, n int64) (int, bool) {
+	h := 8
+	for h+60 <= len(img) {
+		sz, err := strconv.Atoi(strings.TrimSpace(string(img[h+48 : h+58])))
+		if err != nil || sz < 0 {
+			// the chain ends here; a member of this header has no known extent
+			if off >= int64(h+60) {
+				return h, n >= 0
+			}
+			return 0, false
+		}
+		if off >= int64(h+60) && off+max64(n, 0) <= int64(h+60+sz) {
+			return h, true
+		}
+		h += 60 + sz + sz%2
+	}
+	return 0, false
+}
+
+func max64(a, b int64) int64 {
+	if a > b {
+		return a
+	}
+	return b
 }
 
 // headerChain returns the offsets at which member headers of the input lie:
@@ -470,7 +508,7 @@ func runC15(r *rt.Run, tier string) {
 	// payload reader and the close function - and lets go of the *Deb itself; a
 	// garbage collection (finalizers included) runs before the payload is read.
 	// The listing is the one a caller gets who holds on to the *Deb.
-	if target == "deb" && t.Bool(1, 12, "c15.gc") {
+	if target == "deb" && t.Bool(1, 6, "c15.gc") {
 		fsys := simos.New(r)
 		fsys.PutQuiet("/pkgs/x.deb", img)
 		simos.Install(fsys)
@@ -490,7 +528,11 @@ func runC15(r *rt.Run, tier string) {
 				return
 			}
 			ref = listTar(d.Data)
-			closeFn()
+			if t.Bool(1, 2, "c15.gc.closevia") {
+				d.Close()
+			} else {
+				closeFn()
+			}
 		})
 		var data *tar.Reader
 		var closeFn deb.Closer
@@ -502,6 +544,11 @@ func runC15(r *rt.Run, tier string) {
 			}
 			data, closeFn = d.Data, c
 		})
+		for _, x := range []*rt.Task{tk, tk2} {
+			if x.Panic != nil {
+				r.Violate("C15/panic", "LoadFile", "opening, listing and closing an intact package through LoadFile panicked: %v\n%s", x.Panic, trimStack(x.PanicStack))
+			}
+		}
 		if tk.Panic == nil && tk2.Panic == nil && data != nil {
 			collectGarbage()
 			tk3 := r.Solo("reads-after-gc", func() {
